@@ -14,7 +14,7 @@ from . import common as C
 from . import digest as DG
 from . import worlds as WD
 
-OPS = ["runA", "runAprog", "runB", "runBprog", "copyA", "pickleA", "saveloadA", "freshA"]
+OPS = ["runA", "runAprog", "runB", "runBprog", "copyA", "pickleA", "saveloadA", "freshA", "runAinit", "buildG"]
 
 
 def gen_project(at):
@@ -38,6 +38,24 @@ def gen_project(at):
     return P
 
 
+def gen_progset(at, P):
+    """A program set for the generated project assembled through the API the way scripts do it: ProgramSet.new, then targets appended in place."""
+    import sciris as sc
+    from atomica.programs import Covout
+    from atomica.utils import TimeSeries
+
+    pg = at.ProgramSet.new(tvec=np.array([2000.0]), progs=sc.odict([("G1", "Gen 1"), ("G2", "Gen 2")]), framework=P.framework, data=P.data)
+    for name, comp, spend in (("G1", "a", 40.0), ("G2", "v", 10.0)):
+        pr = pg.programs[name]
+        pr.target_pops.append("p0")
+        pr.target_comps.append(comp)
+        pr.spend_data = TimeSeries(assumption=spend, units="$/year")
+        pr.unit_cost = TimeSeries(assumption=1.0, units="$/person/year")
+    pg.covouts[("vac", "p0")] = Covout("vac", "p0", {"G1": 0.9}, baseline=0.1)
+    pg.covouts[("mort", "p0")] = Covout("mort", "p0", {"G2": 0.05}, baseline=0.3)
+    return pg
+
+
 class Bench:
     def __init__(self, at, names):
         self.at = at
@@ -46,6 +64,7 @@ class Bench:
             P = gen_project(at) if name == "generated" else at.demo(name, do_run=False)
             self.P[key] = P
         self.names = names
+        self.psinit = None
         self.ins = {}
         for key, P in self.P.items():
             if P.progsets:
@@ -68,6 +87,26 @@ class Bench:
         P = self.P[key]
         if prog and key not in self.ins:
             return None
+        if op == "buildG":
+            G = gen_project(at)
+            pg = gen_progset(at, G)
+            ins = at.ProgramInstructions(start_year=2001.0, alloc=pg)
+            res = "%s/%s" % (DG.dig(pg), DG.result_digest(G.run_sim(G.parsets[0], pg, ins, store_results=False)))
+            return dict(op=op, realop=op, key="", before="", after="", result=res, pid=os.getpid())
+        if op == "runAinit":
+            if self.psinit is None:
+                import sciris as sc
+
+                r0 = P.run_sim(P.parsets[0], store_results=False)
+                q = sc.dcp(P.parsets[0])
+                q.set_initialization(r0, float(P.settings.sim_start) + 1.0)
+                self.psinit = sc.dcp(P.parsets[0])
+                self.psinit.load_calibration(q.calibration_spreadsheet())  # the saved initialization arrives through a calibration file
+            objs = [self.psinit, P.framework, P.data, P.settings]
+            before = "|".join(DG.dig(o) for o in objs)
+            res = DG.result_digest(P.run_sim(self.psinit, store_results=False))
+            after = "|".join(DG.dig(o) for o in objs)
+            return dict(op=op, realop=op, key=before, before=before, after=after, result=res, pid=os.getpid())
         before = self.key_digest(key, prog)
         ps = P.parsets[0]
         if op in ("runA", "runB"):
